@@ -36,6 +36,42 @@ def with_delay_fallback(job, k=2):
     return job
 
 
+def opfault_stages(prop, oracles, tier, combos):
+    """single injected I/O error: stage A counts the file-system operations of the default schedule of
+    each scenario, stage B lets the n-th one fail with EIO, for every n: the program may stop with a
+    non-zero status, but if it reports completion everything the oracles judge must hold"""
+    def stage_a(ctx, prev):
+        jobs = []
+        for (g, i, m, kind, extra) in combos:
+            j = wf(prop, g, i, 1, m, kind, mode="single", oracles=["nohang"], events_dep=False, tier=tier, id=f"{prop}-iofault-count-{g}-i{i}-m{m}-{kind}" + (f"-{extra}" if extra else ""), **({"extra": extra} if extra else {}))
+            j["op_fault_nth"] = -1
+            j["_opcount"] = True
+            j.pop("_native", None)
+            jobs.append(j)
+        return jobs
+    def stage_b(ctx, prev):
+        jobs = []
+        for r in prev:
+            j = r["job"]
+            if not j.get("_opcount") or j.get("_consumed"):
+                continue
+            j["_consumed"] = True
+            n = (r.get("extra") or {}).get("fs_ops_last_execution", 0)
+            for k in range(1, n + 1):
+                nj = copy.deepcopy(j)
+                for kk in ("base", "_opcount", "_consumed"):
+                    nj.pop(kk, None)
+                nj["id"] = j["id"].replace("-count-", "-") + f"-op{k}"
+                nj["op_fault_nth"] = k
+                nj["mode"] = "delay"
+                nj["delay"] = 0 if tier == "quick" else 1
+                nj["oracles"] = list(oracles)
+                nj["budget"] = budget(tier, 10, 60)
+                jobs.append(nj)
+        return jobs
+    return [stage_a, stage_b]
+
+
 def mem_jobs(prop, oracles, tier, combos, events_dep=False, **kw):
     """memory-level pass: the same scenarios on the race-instrumented build, where every map operation
     and every access to a mutable struct field is a scheduling point too (check-then-act on shared
@@ -198,9 +234,14 @@ def plan_c05(tier, seed):
         add("g3", 2, 1, 2, runto=["p"], id="C05-g3-runto-p")
         add("g11", 2, 1, 2, runto=["last"], id="C05-g11-runto-last")
         add("g11", 2, 1, 2, runto=["p"], id="C05-g11-runto-p")
+    # environment deviation: the rename into an absolute destination on another device fails (EXDEV): Run may
+    # stop the program, but may not return as if the work were done
+    jobs.append(with_delay_fallback(wf("C05", "g2", 1, 1, 1, "cmd", oracles=["nohang", "c05"], events_dep=True, tier=tier, extra="absout", xdev="abs", id="C05-g2-absout-other-device")))
+    jobs.append(with_delay_fallback(wf("C05", "g3", 1, 1, 2, "cmd", oracles=["nohang", "c05"], events_dep=True, tier=tier, extra="absout", xdev="abs", id="C05-g3-absout-other-device")))
     jobs.extend(mem_jobs("C05", o, tier, [("g5", 1, 2), ("g10b", 1, 2)] if tier == "quick" else [("g5", 1, 2), ("g10b", 1, 2), ("g4", 1, 2), ("g11", 2, 2), ("g9", 1, 2)], events_dep=True))
-    return {"level": "model_checking", "native": True, "race_too": True, "stages": [lambda ctx, prev: jobs],
-            "rule": "every Mazurkiewicz trace of each scenario with start/end/return events mutually dependent (every order not forced by happens-before); at the state where the main thread returns from Run: all started tasks ended, all reference outputs final, no temp dir / FIFO; no deadlock state; memory-level pass: some scenarios again on the race-instrumented build, where map operations and accesses to mutable struct fields are scheduling points too",
+    iof = opfault_stages("C05", ["nohang", "c05", "c04"], tier, [("g3", 1, 1, "cmd", ""), ("g3", 1, 1, "func", ""), ("g7", 1, 1, "cmd", ""), ("g2", 1, 1, "cmd", "subdir"), ("g11", 1, 1, "cmd", "")] + ([] if tier == "quick" else [("g4", 1, 2, "cmd", ""), ("g14a", 1, 1, "cmd", ""), ("g8", 1, 1, "func", "")]))
+    return {"level": "model_checking", "native": True, "race_too": True, "stages": [lambda ctx, prev: jobs] + iof,
+            "rule": "every Mazurkiewicz trace of each scenario with start/end/return events mutually dependent (every order not forced by happens-before); at the state where the main thread returns from Run: all started tasks ended, all reference outputs final, no temp dir / FIFO; no deadlock state; + a rename that fails with EXDEV (absolute destination on another device): stopping is fine, returning is not; single injected I/O error: the n-th file-system operation of the run fails with EIO, for every n (default schedule; thorough: + 1 delay) - stop, or return with everything in place; memory-level pass: some scenarios again on the race-instrumented build, where map operations and accesses to mutable struct fields are scheduling points too",
             "assumptions": BASE_ASSUMPTIONS}
 
 
